@@ -130,7 +130,7 @@ def main(ck):
     jobs = []
     for mname, (d, inf, p) in built.items():
         vname, _, src, meta = p
-        if not inf['ok'] and mname == 'c32xs' and inf['crash']:
+        if not inf['ok'] and mname == 'c32xs' and (inf['crash'] or 'Compiler crash' in inf['errors']):
             # compiler crash on a function pointer declared `except +*` (a declaration this property is about)
             tb = [ln.strip() for ln in inf['errors'].splitlines() if ln.strip()]
             ck.discrepancy('compiler-crash:cpp:plusstar:fptr:' + (tb[-1].split(':')[0] if tb else '?'),
